@@ -300,6 +300,33 @@ func forwardWorker(r *lib.Run, wk, nCand, nUnmatched, nLive int, tot *fwTotals) 
 
 	var candChecked, substChecked, substSkippedAmbiguous, guardAborts, noRouteSeen, caseVariant int
 
+	// 2a'. one route list shared by successive connections, as the proxy's configuration snapshot
+	// is between reloads: every connection's candidates are computed from the ROUTE'S templates
+	// and its own host, never from what an earlier connection substituted
+	sharedChecked := 0
+	for i := 0; i < nCand/10+2; i++ {
+		label := []string{"alpha", "beta", "gamma", "delta", "a-1", "x9"}
+		routes := toRoutes([]routeSpec{{Hosts: []string{"*.shared.example.test"}, Backends: []string{"$1.svc.local:25565", "fixed.local:25566", "pre-$1:1"}},
+			{Hosts: []string{"*"}, Backends: []string{"catchall.local:25565"}}})
+		for k := 0; k < 3+rng.Intn(3); k++ {
+			sub := label[rng.Intn(len(label))]
+			o, _ := runForward(routes, sub+".shared.example.test", time.Nanosecond, 12)
+			r.Eval(1)
+			if !o.Returned || !o.SawHS {
+				r.Inconclusive("Forward did not return / decode the handshake (shared route list)")
+				continue
+			}
+			got := distinctInOrder(o.Tries)
+			want := []string{sub + ".svc.local:25565", "fixed.local:25566", "pre-" + sub + ":1"}
+			sharedChecked++
+			if strings.Join(got, "\x1e") != strings.Join(want, "\x1e") {
+				r.Violation("substitution-uses-an-earlier-connections-groups", "a later connection over the same route list was given backends substituted for an earlier connection's host",
+					map[string]any{"host": sub + ".shared.example.test", "connection_number_on_this_route_list": k + 1, "tried": got, "reference": want})
+			}
+		}
+	}
+	r.Count("fw_connections_over_a_shared_route_list_checked", sharedChecked)
+
 	// 2a. candidate lists (dial deadline already expired: nothing reaches the network)
 	for i := 0; i < nCand; i++ {
 		c := genCase(rng)
